@@ -90,19 +90,19 @@ theorem each_once (t : Tree) :
 /-! ## Concrete instances -/
 
 /-- `(( c, d ) a, b) r` -/
-def exTree : Tree :=
+def exTree19 : Tree :=
   ⟨[114], none,
     .cons [97] none (.cons [99] none .nil (.cons [100] none .nil .nil))
       (.cons [98] none .nil .nil)⟩
 
-example : (preOrder exTree).map (·.name) = [[114], [97], [99], [100], [98]] := by decide
-example : (postOrder exTree).map (·.name) = [[99], [100], [97], [98], [114]] := by decide
-example : exTree.size = 5 := by decide
+example : (preOrder exTree19).map (·.name) = [[114], [97], [99], [100], [98]] := by decide
+example : (postOrder exTree19).map (·.name) = [[99], [100], [97], [98], [114]] := by decide
+example : exTree19.size = 5 := by decide
 /-- A consumer that stops at node `c` sees `r a c` (pre) and just `c` (post). -/
-example : (traverse true (fun x => x.name != [99]) exTree).map (·.name)
+example : (traverse true (fun x => x.name != [99]) exTree19).map (·.name)
     = [[114], [97], [99]] := by decide
-example : (traverse false (fun x => x.name != [99]) exTree).map (·.name) = [[99]] := by decide
-example : (traverse false (fun x => x.name != [97]) exTree).map (·.name)
+example : (traverse false (fun x => x.name != [99]) exTree19).map (·.name) = [[99]] := by decide
+example : (traverse false (fun x => x.name != [97]) exTree19).map (·.name)
     = [[99], [100], [97]] := by decide
 
 end Bio.Newick
